@@ -168,7 +168,11 @@ class Recorder(np.random.RandomState):
 
 # ------------------------------------------------------------------ Lean side
 
-FORBIDDEN = re.compile(r'\b(sorry|admit|native_decide|bv_decide|implemented_by|unsafe)\b|^\s*axiom\s|maxHeartbeats\s+0', re.M)
+# no escape hatches: no unproved goals, no extra axioms, no compiler-trusting tactics, and no metaprogramming that could add
+# declarations behind the kernel's back (Model / Lemmas / Props / Gen files need none of it)
+FORBIDDEN = re.compile(r'\b(sorry|admit|native_decide|bv_decide|implemented_by|extern|unsafe|skipKernelTC|addDecl|addAndCompile|'
+                       r'run_cmd|run_elab|run_meta|ofReduceBool|reduceBool|trustCompiler)\b|^\s*axiom\s|maxHeartbeats\s+0|'
+                       r'^\s*(elab|macro|syntax|initialize|builtin_initialize)\b|^\s*open\s+Lean\b|^\s*import\s+Lean\b', re.M)
 ALLOWED_AXIOMS = {'propext', 'Classical.choice', 'Quot.sound'}
 
 
@@ -513,6 +517,15 @@ class Check:
         return ok and not any(b['kind'] == 'forbidden-token' for b in self.breaks)
 
     def leanchecker(self, mods):
+        # re-check the whole project-internal import closure (Model, Lemmas, Props, Gen), not only the named modules
+        seen, stack = [], list(mods)
+        while stack:
+            m = stack.pop()
+            if m in seen or not m.startswith('BctVerif') or not os.path.exists(module_file(m)):
+                continue
+            seen.append(m)
+            stack.extend(re.findall(r'^\s*import\s+(\S+)', strip_comments(open(module_file(m)).read()), flags=re.M))
+        mods = sorted(seen)
         cmd = ['lake', 'env', 'leanchecker'] + list(mods)
         self.checker_cmds.append('cd lean && ' + ' '.join(cmd))
         p = subprocess.run(cmd, cwd=LEAN, capture_output=True, text=True, timeout=3000)
